@@ -596,6 +596,33 @@ def _std(a, axis=None, ddof=0, **kw):
     return np.sqrt(v)
 
 
+@implements(np.cov)
+def _cov(m, y=None, rowvar=True, bias=False, ddof=None, **kw):
+    """documented definition: rows are variables; C = (X - mean)(X - mean)^H / (N - ddof)"""
+    if kw:
+        raise ShimGap("cov with weights")
+    X = np.atleast_2d(np.asarray(_obj(m), dtype=object))
+    if not rowvar and X.shape[0] != 1:
+        X = X.T
+    if y is not None:
+        Y = np.atleast_2d(np.asarray(_obj(y), dtype=object))
+        if not rowvar and Y.shape[0] != 1:
+            Y = Y.T
+        X = np.concatenate((X, Y), axis=0)
+    n = X.shape[1]
+    if ddof is None:
+        ddof = 0 if bias else 1
+    rows = []
+    for r in range(X.shape[0]):
+        mu = _fold("add", X[r]) / n
+        rows.append([x - mu for x in X[r]])
+    C = np.empty((len(rows), len(rows)), dtype=object)
+    for a in range(len(rows)):
+        for b in range(len(rows)):
+            C[a, b] = _fold("add", [u * (v.conjugate() if hasattr(v, "conjugate") else v) for u, v in zip(rows[a], rows[b])]) / (n - ddof)
+    return SymArray(C) if C.shape != (1, 1) else C[0, 0]
+
+
 @implements(np.any)
 def _any(a, axis=None, **kw):
     return _reduce("logical_or", _obj(a), axis)
@@ -713,7 +740,7 @@ class NPProxy:
             if k in ("hstack", "vstack", "concatenate", "stack", "column_stack", "dstack", "append", "insert",
                      "delete", "reshape", "transpose", "moveaxis", "expand_dims", "repeat", "tile", "diag",
                      "kron", "squeeze", "flip", "roll", "atleast_2d", "atleast_1d", "swapaxes", "ravel", "take",
-                     "tril", "triu", "trace", "cov", "outer", "cumsum", "diff", "copy", "asarray", "einsum",
+                     "tril", "triu", "trace", "outer", "cumsum", "diff", "copy", "asarray", "einsum",
                      "broadcast_to", "split", "array_split", "block"):
                 def w(*a, **kw):
                     if any(has_sym(x) for x in a):
